@@ -6,8 +6,9 @@ Matrix-level model of the decision rule of the Myers traceback (`traceback.rs: T
 Core Lean only.
 
 The Rust code walks from the cell (m, end) of the Sellers matrix to row 0.  It reconstructs the three neighbouring
-values from the stored `Pv/Mv` columns (`adjust_dist`, `adjust_by_mask`, `move_left_down_if_better`); this model reads
-them from the matrix `D i j` = (row `i`, after `j` text symbols) directly and keeps the *order of the tests*:
+values from the stored `Pv/Mv` columns (`adjust_dist`, `adjust_by_mask`, `move_left_down_if_better`); the first model
+below (`walkF`, `traceback`) reads them from the matrix `D i j` = (row `i`, after `j` text symbols) directly and keeps
+the *order of the tests*; the second half of the file is the stored-state model (handler, states vector, ring buffer):
   1. `left_block.dist + 1 == block.dist`             diagonal value + 1 = current value   → `Subst`
   2. `block.pv & pos != 0`                          upper value + 1 = current value      → `Ins`
   3. `left_block.mv & pos != 0`                     left value = diagonal value − 1      → `Del`
